@@ -3,7 +3,7 @@
   the limb / digit vector included. The step theorems are composed by induction on the list of operations.
 -/
 import UVerifProofs.Lemmas.ElasticPrint
-import UVerifProofs.Lemmas.ElasticDecOps
+import UVerifProofs.Lemmas.ElasticDecDiv
 
 namespace UVerif.EInt
 
@@ -25,14 +25,13 @@ def Op.exact (v : Int) (w : Nat) : Op → Int
   | .neg => -v
   | .shl k => v * 2 ^ k
 
-/-- operand canonical, and the step stays out of the two regions where the pinned code is wrong or leaves a
-    non-canonical object: `-=` with negative `*this` and non-negative rhs; `<<=` by a whole number of limbs. -/
-def Op.Ok (w : Nat) (x : EI) : Op → Prop
+/-- the operand of the step is canonical (no other restriction). -/
+def Op.Ok (w : Nat) (_x : EI) : Op → Prop
   | .add r => Canon w r
-  | .sub r => Canon w r ∧ (x.sign = false ∨ r.sign = true ∨ x.limbs = [])
+  | .sub r => Canon w r
   | .mulF r => Canon w r
   | .neg => True
-  | .shl k => ¬ (k ≥ w ∧ k % w = 0)
+  | .shl _ => True
 
 def runAll (w : Nat) (x : EI) : List Op → EI
   | [] => x
@@ -47,22 +46,11 @@ def OkAll (w : Nat) (x : EI) : List Op → Prop
   | [] => True
   | o :: os => o.Ok w x ∧ OkAll w (o.run w x) os
 
-theorem shl_canon (w : Nat) (hw : 0 < w) (x : EI) (k : Nat) (hx : Canon w x) (hk : ¬ (k ≥ w ∧ k % w = 0)) :
-    Canon w (shl w x k) := by
-  refine ⟨(shl_spec w hw x k hx.1).2.2, ?_⟩
-  unfold shl
+theorem shl_canon (w : Nat) (hw : 0 < w) (x : EI) (k : Nat) (hx : Canon w x) : Canon w (shl w x k) := by
+  refine ⟨(shl_spec w hw x k hx.1).2.2.1, ?_⟩
   by_cases h0 : k = 0
-  · simp [h0]; exact hx.2
-  · simp only [h0, if_false]
-    have hbs : (if k ≥ w then k / w else 0) = k / w := by
-      split
-      · rfl
-      · rw [Nat.div_eq_of_lt (by omega)]
-    have hsm : k - k / w * w = k % w := by
-      have := Nat.div_add_mod k w; rw [Nat.mul_comm] at this; omega
-    rw [hbs, hsm]
-    simp only [hk, if_false]
-    exact noLeadingZero_stripTop _
+  · simp [shl, h0]; exact hx.2
+  · exact (shl_spec w hw x k hx.1).2.2.2 h0
 
 theorem step_spec (w : Nat) (hw : 0 < w) (x : EI) (o : Op) (hx : Canon w x) (ho : o.Ok w x) :
     toInt w (o.run w x) = o.exact (toInt w x) w ∧ Canon w (o.run w x) := by
@@ -71,7 +59,7 @@ theorem step_spec (w : Nat) (hw : 0 < w) (x : EI) (o : Op) (hx : Canon w x) (ho 
     have ⟨h1, h2⟩ := add_spec w hw x r hx ho
     exact ⟨h1, h2⟩
   | sub r =>
-    have ⟨h1, h2⟩ := sub_spec w hw x r hx ho.1 ho.2
+    have ⟨h1, h2⟩ := sub_spec w hw x r hx ho
     exact ⟨h1, h2⟩
   | mulF r => exact mulFixed_spec w x r hx ho
   | neg =>
@@ -80,7 +68,7 @@ theorem step_spec (w : Nat) (hw : 0 < w) (x : EI) (o : Op) (hx : Canon w x) (ho 
     by_cases hsg : x.sign = true <;> simp [hsg]
   | shl k =>
     obtain ⟨h1, h2, _⟩ := shl_spec w hw x k hx.1
-    refine ⟨?_, shl_canon w hw x k hx ho⟩
+    refine ⟨?_, shl_canon w hw x k hx⟩
     simp only [Op.run, Op.exact, toInt, h1, h2]
     split <;> push_cast <;> ring
 
@@ -100,25 +88,32 @@ end UVerif.EInt
 namespace UVerif.EDec
 
 inductive Op where
-  | add (r : ED) | sub (r : ED) | mul (r : ED) | neg
+  | add (r : ED) | sub (r : ED) | mul (r : ED) | neg | div (r : ED) | rem (r : ED)
 
 def Op.run (x : ED) : Op → ED
   | .add r => EDec.add x r
   | .sub r => EDec.sub x r
   | .mul r => EDec.mul x r
   | .neg => EDec.neg x
+  | .div r => EDec.div x r
+  | .rem r => EDec.rem x r
 
 def Op.exact (v : Int) : Op → Int
   | .add r => v + toInt r
   | .sub r => v - toInt r
   | .mul r => v * toInt r
   | .neg => -v
+  | .div r => Int.tdiv v (toInt r)
+  | .rem r => Int.tmod v (toInt r)
 
+/-- the operand is canonical (and a divisor is not zero) -/
 def Op.Ok : Op → Prop
   | .add r => ECanon r
   | .sub r => ECanon r
   | .mul r => ECanon r
   | .neg => True
+  | .div r => ECanon r ∧ toInt r ≠ 0
+  | .rem r => ECanon r ∧ toInt r ≠ 0
 
 def runAll (x : ED) : List Op → ED
   | [] => x
@@ -128,25 +123,31 @@ def exactAll (v : Int) : List Op → Int
   | [] => v
   | o :: os => exactAll (o.exact v) os
 
-theorem step_spec (x : ED) (o : Op) (hx : ECanon x) (ho : o.Ok) :
-    toInt (o.run x) = o.exact (toInt x) ∧ ECanon (o.run x) := by
-  cases o with
-  | add r => exact add_spec hx ho
-  | sub r => exact sub_spec hx ho
-  | mul r => exact mul_spec hx ho
-  | neg =>
-    refine ⟨?_, hx⟩
-    simp only [Op.run, Op.exact, EDec.neg, toInt]
-    by_cases hsg : x.neg = true <;> simp [hsg]
+theorem toNat_ne_of_toInt_ne {r : ED} (h : toInt r ≠ 0) : toNat r.d ≠ 0 := by
+  intro h0; apply h; simp [toInt, h0]
 
-/-- HISTORY (edecimal): any chain of `+ - * negate` with canonical operands denotes the exact integer and stays
-    canonical — no restriction on signs or sizes. -/
-theorem history_spec : ∀ (ops : List Op) (x : ED), ECanon x → (∀ o ∈ ops, o.Ok) →
-    toInt (runAll x ops) = exactAll (toInt x) ops ∧ ECanon (runAll x ops)
-  | [], x, hx, _ => ⟨rfl, hx⟩
-  | o :: os, x, hx, hok => by
-    obtain ⟨h1, h2⟩ := step_spec x o hx (hok o (List.mem_cons_self ..))
-    have ih := history_spec os (o.run x) h2 (fun o' ho' => hok o' (List.mem_cons_of_mem _ ho'))
+theorem step_spec (x : ED) (o : Op) (hx : ECanon x) (hn : NZ x) (ho : o.Ok) :
+    toInt (o.run x) = o.exact (toInt x) ∧ ECanon (o.run x) ∧ NZ (o.run x) := by
+  cases o with
+  | add r => exact ⟨(add_spec hx ho).1, (add_spec hx ho).2, add_nz hx ho hn⟩
+  | sub r => exact ⟨(sub_spec hx ho).1, (sub_spec hx ho).2, sub_nz hx ho hn⟩
+  | mul r => exact ⟨(mul_spec hx ho).1, (mul_spec hx ho).2, mul_nz hx ho⟩
+  | neg => exact ⟨neg_spec x, ecanon_neg hx, neg_nz hn⟩
+  | div r =>
+    obtain ⟨h1, _, h3, _, _, _, h7, _⟩ := divide_spec hx ho.1 hn (toNat_ne_of_toInt_ne ho.2)
+    exact ⟨h1, h3, h7⟩
+  | rem r =>
+    obtain ⟨_, h2, _, h4, _, _, _, h8⟩ := divide_spec hx ho.1 hn (toNat_ne_of_toInt_ne ho.2)
+    exact ⟨h2, h4, h8⟩
+
+/-- HISTORY (edecimal): any chain of `+ - * / % negate` with canonical operands (non-zero divisors) denotes the exact
+    integer, stays canonical, and never becomes a "negative zero" — no restriction on signs or sizes. -/
+theorem history_spec : ∀ (ops : List Op) (x : ED), ECanon x → NZ x → (∀ o ∈ ops, o.Ok) →
+    toInt (runAll x ops) = exactAll (toInt x) ops ∧ ECanon (runAll x ops) ∧ NZ (runAll x ops)
+  | [], x, hx, hn, _ => ⟨rfl, hx, hn⟩
+  | o :: os, x, hx, hn, hok => by
+    obtain ⟨h1, h2, h3⟩ := step_spec x o hx hn (hok o (List.mem_cons_self ..))
+    have ih := history_spec os (o.run x) h2 h3 (fun o' ho' => hok o' (List.mem_cons_of_mem _ ho'))
     simp only [runAll, exactAll]
     rw [← h1]; exact ih
 
